@@ -1,18 +1,26 @@
-// Model of the part of std::collections::BTreeMap that src/timers/mod.rs uses.
-// Sorted array of fixed capacity.  It behaves like BTreeMap *provided* the key
-// order is a total order over the keys that meet; that precondition (which
-// std's map silently relies on, and which the cyclic WrapTime order only has
-// while all keys lie within 2^31 ticks) is asserted on every operation.
+// Model of the part of std::collections::BTreeMap that src/timers/mod.rs uses:
+// new, iter().next(), split_off, into_iter, insert, remove, entry/Vacant/insert.
+//
+// Two slots, straight-line code (no loops, constant indices only: cheap for the solver).
+// Invariant: v0.is_none() => v1.is_none(); both present => k0 < k1.
+// It behaves like BTreeMap *provided* the key order is a total order over the keys that
+// meet; that precondition (which std's map silently relies on, and which the cyclic
+// WrapTime order only has while all keys lie within 2^31 ticks) is asserted on every
+// operation, as is the capacity bound of the model.
 //
 // Compiled only under cfg(all(kani, not(test), feature = "uazu-stakker-verif")):
 // `cargo kani playback` (cfg(test)) and every ordinary build use std's map.
 
 use std::cmp::Ordering;
+use std::mem;
 
-pub const CAP: usize = 3;
+pub const CAP: usize = 2;
 
 pub struct BTreeMap<K, V> {
-    ent: [Option<(K, V)>; CAP], // ent[0..n] are Some and strictly ascending; the rest None
+    k0: Option<K>,
+    k1: Option<K>,
+    v0: Option<V>,
+    v1: Option<V>,
 }
 
 pub enum Entry<'a, K, V> {
@@ -28,145 +36,121 @@ pub struct VacantEntry<'a, K, V> {
 
 impl<'a, K: Ord + Copy, V> VacantEntry<'a, K, V> {
     pub fn insert(self, v: V) {
-        let old = self.map.insert(self.key, v);
-        debug_assert!(old.is_none());
-        std::mem::forget(old);
+        self.map.insert_new(self.key, v);
+    }
+}
+
+fn rev_ok(a: Ordering, b: Ordering) -> bool {
+    a == b.reverse()
+}
+
+// p cmp k, or Less when the slot is empty (never used in that case)
+fn cmp_slot<K: Ord>(p: &K, k: &Option<K>) -> Ordering {
+    match k {
+        Some(k) => p.cmp(k),
+        None => Ordering::Less,
     }
 }
 
 impl<K: Ord + Copy, V> BTreeMap<K, V> {
     pub fn new() -> Self {
-        Self { ent: [None, None, None] }
+        Self { k0: None, k1: None, v0: None, v1: None }
     }
 
     pub fn len(&self) -> usize {
-        let mut n = 0;
-        let mut i = 0;
-        while i < CAP {
-            if self.ent[i].is_some() {
-                n += 1;
-            }
-            i += 1;
-        }
-        n
+        (self.k0.is_some() as usize) + (self.k1.is_some() as usize)
     }
 
-    // Total-order precondition over {present keys} ∪ {probe}
-    fn check_order(&self, probe: &K) {
-        let mut i = 0;
-        while i < CAP {
-            if let Some((ki, _)) = &self.ent[i] {
-                let c = ki.cmp(probe);
-                assert!(c == probe.cmp(ki).reverse(), "BTreeMap precondition: key order not antisymmetric");
-                let mut j = i + 1;
-                while j < CAP {
-                    if let Some((kj, _)) = &self.ent[j] {
-                        assert!(ki.cmp(kj) == Ordering::Less && kj.cmp(ki) == Ordering::Greater,
-                                "BTreeMap precondition: stored keys not totally ordered");
-                        // probe must sit consistently: ki < kj, so probe > kj => probe > ki, probe < ki => probe < kj
-                        let cj = kj.cmp(probe);
-                        assert!(!(c == Ordering::Greater && cj == Ordering::Less) && !(c == Ordering::Equal && cj != Ordering::Greater)
-                                && !(cj == Ordering::Equal && c != Ordering::Less),
-                                "BTreeMap precondition: key order not transitive");
-                    }
-                    j += 1;
-                }
+    // Total-order precondition over {present keys} + {probe}; returns (probe cmp k0, probe cmp k1)
+    fn order(&self, p: &K) -> (Ordering, Ordering) {
+        let c0 = cmp_slot(p, &self.k0);
+        let c1 = cmp_slot(p, &self.k1);
+        if let Some(k0) = &self.k0 {
+            assert!(rev_ok(c0, k0.cmp(p)), "BTreeMap precondition: key order not antisymmetric");
+            if let Some(k1) = &self.k1 {
+                assert!(rev_ok(c1, k1.cmp(p)), "BTreeMap precondition: key order not antisymmetric");
+                assert!(k0.cmp(k1) == Ordering::Less && k1.cmp(k0) == Ordering::Greater,
+                        "BTreeMap precondition: stored keys not totally ordered");
+                // k0 < k1: p <= k0 implies p < k1 (equivalently p >= k1 implies p > k0)
+                assert!(!(c0 != Ordering::Greater && c1 != Ordering::Less), "BTreeMap precondition: key order not transitive");
             }
-            i += 1;
         }
+        (c0, c1)
     }
 
     pub fn iter(&self) -> Iter<'_, K, V> {
         Iter { map: self, pos: 0 }
     }
 
+    fn insert_new(&mut self, k: K, v: V) {
+        let (c0, _c1) = self.order(&k);
+        if self.k0.is_none() {
+            self.k0 = Some(k);
+            mem::forget(mem::replace(&mut self.v0, Some(v)));
+        } else {
+            assert!(self.k1.is_none(), "vmap: model capacity (2 entries) exceeded: outside the harness bound");
+            if c0 == Ordering::Less {
+                self.k1 = self.k0;
+                mem::swap(&mut self.v0, &mut self.v1); // v1 was None
+                self.k0 = Some(k);
+                mem::forget(mem::replace(&mut self.v0, Some(v)));
+            } else {
+                self.k1 = Some(k);
+                mem::forget(mem::replace(&mut self.v1, Some(v)));
+            }
+        }
+    }
+
     pub fn insert(&mut self, k: K, v: V) -> Option<V> {
-        self.check_order(&k);
-        // position: first slot that is empty or holds a key >= k
-        let mut pos = 0;
-        while pos < CAP {
-            match &self.ent[pos] {
-                None => break,
-                Some((kp, _)) => {
-                    if kp.cmp(&k) != Ordering::Less {
-                        break;
-                    }
-                }
-            }
-            pos += 1;
+        let (c0, c1) = self.order(&k);
+        if self.k0.is_some() && c0 == Ordering::Equal {
+            return mem::replace(&mut self.v0, Some(v));
         }
-        assert!(pos < CAP, "vmap: model capacity exceeded (harness bound)");
-        if let Some((kp, _)) = &self.ent[pos] {
-            if kp.cmp(&k) == Ordering::Equal {
-                return self.ent[pos].replace((k, v)).map(|e| e.1);
-            }
+        if self.k1.is_some() && c1 == Ordering::Equal {
+            return mem::replace(&mut self.v1, Some(v));
         }
-        assert!(self.ent[CAP - 1].is_none(), "vmap: model capacity exceeded (harness bound)");
-        let mut i = CAP - 1;
-        while i > pos {
-            self.ent[i] = self.ent[i - 1].take();
-            i -= 1;
-        }
-        self.ent[pos] = Some((k, v));
+        self.insert_new(k, v);
         None
     }
 
     pub fn remove(&mut self, k: &K) -> Option<V> {
-        self.check_order(k);
-        let mut pos = 0;
-        while pos < CAP {
-            match &self.ent[pos] {
-                None => return None,
-                Some((kp, _)) => {
-                    if kp.cmp(k) == Ordering::Equal {
-                        break;
-                    }
-                }
-            }
-            pos += 1;
+        let (c0, c1) = self.order(k);
+        if self.k0.is_some() && c0 == Ordering::Equal {
+            let rv = self.v0.take();
+            self.k0 = self.k1;
+            self.k1 = None;
+            mem::swap(&mut self.v0, &mut self.v1); // v0 is None now: moves slot 1 down
+            return rv;
         }
-        if pos >= CAP {
-            return None;
+        if self.k1.is_some() && c1 == Ordering::Equal {
+            self.k1 = None;
+            return self.v1.take();
         }
-        let rv = self.ent[pos].take().map(|e| e.1);
-        let mut i = pos;
-        while i + 1 < CAP {
-            self.ent[i] = self.ent[i + 1].take();
-            i += 1;
-        }
-        rv
+        None
     }
 
     pub fn entry(&mut self, k: K) -> Entry<'_, K, V> {
-        self.check_order(&k);
-        let mut i = 0;
-        while i < CAP {
-            if let Some((kp, _)) = &self.ent[i] {
-                if kp.cmp(&k) == Ordering::Equal {
-                    return Entry::Occupied(OccupiedEntry);
-                }
-            }
-            i += 1;
+        let (c0, c1) = self.order(&k);
+        if (self.k0.is_some() && c0 == Ordering::Equal) || (self.k1.is_some() && c1 == Ordering::Equal) {
+            return Entry::Occupied(OccupiedEntry);
         }
         Entry::Vacant(VacantEntry { map: self, key: k })
     }
 
     // Keeps keys < k in self, returns keys >= k
     pub fn split_off(&mut self, k: &K) -> Self {
-        self.check_order(k);
+        let (c0, c1) = self.order(k);
         let mut rest = Self::new();
-        let mut n = 0;
-        let mut i = 0;
-        while i < CAP {
-            let ge = match &self.ent[i] {
-                None => false,
-                Some((kp, _)) => kp.cmp(k) != Ordering::Less,
-            };
-            if ge {
-                rest.ent[n] = self.ent[i].take();
-                n += 1;
-            }
-            i += 1;
+        // slot i goes to `rest` iff key_i >= k  iff  k cmp key_i != Greater
+        let m0 = self.k0.is_some() && c0 != Ordering::Greater;
+        let m1 = self.k1.is_some() && c1 != Ordering::Greater;
+        if m0 {
+            // sorted: k0 >= k implies k1 >= k -- everything moves
+            rest = mem::replace(self, Self::new());
+        } else if m1 {
+            rest.k0 = self.k1;
+            self.k1 = None;
+            mem::swap(&mut rest.v0, &mut self.v1);
         }
         rest
     }
@@ -179,9 +163,14 @@ pub struct Iter<'a, K, V> {
 impl<'a, K, V> Iterator for Iter<'a, K, V> {
     type Item = (&'a K, &'a V);
     fn next(&mut self) -> Option<Self::Item> {
-        if self.pos < CAP {
-            if let Some((k, v)) = &self.map.ent[self.pos] {
-                self.pos += 1;
+        let p = self.pos;
+        self.pos += 1;
+        if p == 0 {
+            if let (Some(k), Some(v)) = (&self.map.k0, &self.map.v0) {
+                return Some((k, v));
+            }
+        } else if p == 1 {
+            if let (Some(k), Some(v)) = (&self.map.k1, &self.map.v1) {
                 return Some((k, v));
             }
         }
@@ -193,19 +182,24 @@ pub struct IntoIter<K, V> {
     map: BTreeMap<K, V>,
     pos: usize,
 }
-impl<K, V> Iterator for IntoIter<K, V> {
+impl<K: Copy, V> Iterator for IntoIter<K, V> {
     type Item = (K, V);
     fn next(&mut self) -> Option<Self::Item> {
-        if self.pos < CAP {
-            if let Some(e) = self.map.ent[self.pos].take() {
-                self.pos += 1;
-                return Some(e);
+        let p = self.pos;
+        self.pos += 1;
+        if p == 0 {
+            if let (Some(k), Some(v)) = (self.map.k0, self.map.v0.take()) {
+                return Some((k, v));
+            }
+        } else if p == 1 {
+            if let (Some(k), Some(v)) = (self.map.k1, self.map.v1.take()) {
+                return Some((k, v));
             }
         }
         None
     }
 }
-impl<K, V> IntoIterator for BTreeMap<K, V> {
+impl<K: Copy, V> IntoIterator for BTreeMap<K, V> {
     type Item = (K, V);
     type IntoIter = IntoIter<K, V>;
     fn into_iter(self) -> IntoIter<K, V> {
